@@ -23,6 +23,9 @@ ALPHABET = ['a', 'b', 'Z', '0', '"', '""', '\n', ' ', '{', '}', '[', ']', ';', '
 ALPHABET_ONE_LINE = [c for c in ALPHABET if '\n' not in c]
 
 DOT = shutil.which('dot')
+# graphviz's own parser without the layout pass (`dot -Tcanon` lays the graph
+# out first, which takes minutes on trees of 100+ jobs)
+NOP = shutil.which('nop')
 
 
 def rlabel(rng, alphabet):
@@ -295,17 +298,22 @@ def _check_style(out, attrs, job, info, is_sched, inherited=()):
 
 
 def check_with_dot_binary(out, text):
-    if DOT is None:
+    if DOT is None and NOP is None:
         out.count('dot binary absent (second opinion skipped)')
         return
+    cmd = [NOP] if NOP else [DOT, '-Tcanon']
+    if NOP is None and text.count('\n') > 120:
+        out.count('tree too large for a layout pass (second opinion skipped)')
+        return
     try:
-        r = subprocess.run([DOT, '-Tcanon'], input=text.encode('utf-8'), capture_output=True, timeout=60)
+        r = subprocess.run(cmd, input=text.encode('utf-8'), capture_output=True, timeout=60)
     except subprocess.TimeoutExpired:
         out.count('dot binary timed out (second opinion skipped)')
         return
     out.count('outputs accepted by the dot binary' if r.returncode == 0 else 'outputs refused by the dot binary')
     if r.returncode != 0:
-        out.violation('dot-binary-refuses', "dot -Tcanon exits %d: %s" % (r.returncode, r.stderr.decode(errors='replace')[:300]))
+        out.violation('dot-binary-refuses', "%s exits %d: %s" % (' '.join(cmd), r.returncode,
+                                                                   r.stderr.decode(errors='replace')[:300]))
 
 
 def check_list(out, top, info):
@@ -548,7 +556,7 @@ def c20_large(prop, key, index, tier):
     out.count('large nested DAGs exported (%s)' % kind)
     text = None
     try:
-        with line_budget(30_000_000) as spent:
+        with line_budget(8_000_000) as spent:
             text = top.dot_format()
         out.count('exports done under a budget of logical steps')
         out.count('  ... library lines executed', spent[0])
@@ -560,7 +568,7 @@ def c20_large(prop, key, index, tier):
     if text is not None:
         check_dot(out, top, info, text)
     try:
-        with line_budget(30_000_000):
+        with line_budget(8_000_000):
             check_list(out, top, info)
     except BudgetExceeded as exc:
         out.violation('list-no-answer', "list() gave no answer: %s" % exc)
